@@ -11,7 +11,7 @@
 #define NREC (2 * K + 2)
 #define VF_SZ_LIST(X) X(4) X(5) X(6) X(24)
 #define VF_MAXDIGITS 2
-#define VF_INPUTS(X) X(unsigned char, kf, ) X(unsigned char, kt, ) X(unsigned char, nf, ) X(unsigned char, nt, ) X(unsigned char, keyf, [K]) X(unsigned char, keyt, [K]) \
+#define VF_INPUTS(X) X(unsigned char, kf, ) X(unsigned char, kt, ) X(unsigned char, nf, ) X(unsigned char, nt, ) X(unsigned char, keyf, [K]) X(unsigned char, keyt, [K]) X(unsigned char, fl, [2]) \
     X(int, vf, ) X(int, vt, ) X(double, df, ) X(double, dt, ) X(unsigned char, sf, ) X(unsigned char, st, ) X(unsigned char, path, [3]) \
     X(unsigned char, g_text, [2][26]) X(double, g_val, ) X(double, strtod_val, ) X(unsigned char, dp, )
 #include "vf.h"
@@ -73,6 +73,7 @@ static void check_wf(const cJSON *root, const cJSON *kids, unsigned cnt)
     for (i = 0; i < cnt; i++) { unsigned seen = 0; g = 0; for (c = root->child; c != 0 && g <= K; c = c->next, g++) if (c == &kids[i]) seen++; VF_AP(17, seen == 1, "C17 inputs keep the same member nodes (only the order may change)"); }
 }
 
+#define VF_FL(b) ((((b) & 2) ? cJSON_StringIsConst : 0) | (((b) & 4) ? cJSON_IsReference : 0))   /* ownership flag bits: they never change what a node means */
 int main(VF_MAIN_ARGS)
 {
     unsigned i, j, expected = 0; int kf, kt; char p2[12], idx[4];
@@ -80,7 +81,7 @@ int main(VF_MAIN_ARGS)
     { cJSON_Hooks h; h.malloc_fn = vf_malloc; h.free_fn = vf_free; cJSON_InitHooks(&h); }
     kf = ckind(IN.kf); kt = ckind(IN.kt);
     nf = (kf == cJSON_Array || kf == cJSON_Object) ? IN.nf % (K + 1) : 0; nt = (kt == cJSON_Array || kt == cJSON_Object) ? IN.nt % (K + 1) : 0;
-    memset(&F, 0, sizeof F); memset(&T, 0, sizeof T); F.type = kf; T.type = kt;
+    memset(&F, 0, sizeof F); memset(&T, 0, sizeof T); F.type = kf | VF_FL(IN.fl[0]); T.type = kt | VF_FL(IN.fl[1]);
     VF_ASSUME(IN.df == IN.df && IN.dt == IN.dt);
     F.valueint = IN.vf; T.valueint = IN.vt; F.valuedouble = IN.df; T.valuedouble = IN.dt;
     memcpy(sfb, &IN.sf, 1); sfb[1] = 0; memcpy(stb, &IN.st, 1); stb[1] = 0; F.valuestring = sfb; T.valuestring = stb;
